@@ -2,7 +2,7 @@ use c04::tree::{Case, Form, IdForm, Incoming, Item, Node, RngKind};
 use vcore::proptest::prelude::*;
 use vcore::Level;
 
-const RULE: &str = "a case is a span tree as data (<=24 span nodes, nesting depth <=6): every node has a form (attribute on sync fn / async fn, new_span! with Frame::call / Frame::enter / Frame::in_future, guard: parameter sync / async, when: parameter), an enabled flag (disabled = rejected by the runtime filter through its module, or by `when`), and a body of child spans, emit! events, SpanCtxt::current checks, yields, thread hops (with or without a carried Frame::current, entered by call or in_future) and joins of async tasks polled by a generated schedule; optionally incoming trace/span ids are pushed before the root as typed values, lower/upper-case hex strings or integers; the rng is a non-repeating counter (or yields nothing). It is interpreted by fixed macro call sites on a private runtime and judged relationally from the recorded events. Non-trivial = span nesting depth >=3, or a disabled node with an enabled descendant, or an async join, or a thread hop, or incoming ids given as hex strings.";
+const RULE: &str = "a case is a span tree as data (<=24 span nodes, nesting depth <=6): every node has a form (attribute on sync fn / async fn, new_span! with Frame::call / Frame::enter / Frame::in_future, guard: parameter sync / async, when: parameter, ok_lvl/err_lvl Result-returning sync / async fn), an enabled flag (disabled = rejected by the runtime filter through its module, or by `when`), and a body of child spans, emit! events, SpanCtxt::current checks, yields, thread hops (with or without a carried Frame::current, entered by call or in_future) and joins of async tasks polled by a generated schedule; optionally incoming trace/span ids are pushed before the root as typed values, lower/upper-case hex strings or integers; the rng is a non-repeating counter (or yields nothing). It is interpreted by fixed macro call sites on a private runtime and judged relationally from the recorded events. Non-trivial = span nesting depth >=3, or a disabled node with an enabled descendant, or an async join, or a thread hop, or incoming ids given as hex strings.";
 
 const ASSUMPTIONS: [&str; 6] = [
     "the oracle never predicts which id the rng hands out: each enabled span's ids are read from its own span event (identified by a unique module name) and only the relations stated by the property are demanded",
@@ -20,9 +20,11 @@ fn form() -> impl Strategy<Value = Form> {
         1 => Just(Form::ManualEnter),
         1 => Just(Form::GuardSync),
         1 => Just(Form::WhenSync),
+        1 => Just(Form::ResultSync),
         3 => Just(Form::AsyncFn),
         1 => Just(Form::ManualFuture),
         1 => Just(Form::GuardAsync),
+        1 => Just(Form::ResultAsync),
     ]
 }
 
@@ -41,8 +43,8 @@ fn body(depth_left: u32) -> BoxedStrategy<Vec<Item>> {
         5 => leaf(),
         8 => (form(), prop::bool::weighted(0.75), inner.clone()).prop_map(|(form, enabled, items)| Item::Span(Node { form, enabled, items })),
         1 => (prop::bool::weighted(0.7), any::<bool>(), inner.clone()).prop_map(|(carry, fut, items)| Item::Hop { carry, fut, items }),
-        1 => (any::<bool>(), prop::collection::vec(inner, 1..4), prop::collection::vec(0u8..6, 0..10))
-            .prop_map(|(carry, tasks, schedule)| Item::Join { carry, tasks, schedule }),
+        1 => (any::<bool>(), prop::bool::weighted(0.4), prop::collection::vec(inner, 1..4), prop::collection::vec(0u8..16, 0..10))
+            .prop_map(|(carry, migrate, tasks, schedule)| Item::Join { carry, migrate, tasks, schedule }),
     ];
     prop::collection::vec(item, 0..4).boxed()
 }
@@ -112,6 +114,7 @@ fn main() {
             s.require(class, 200);
         }
         s.require("async-join-interleavable", 100);
+        s.require("async-join-polls-migrate-threads", 50);
         s.require("thread-hop-carried-frame", 100);
         s.require("integer-ids", 100);
         s.require("empty-rng", 50);
